@@ -14,6 +14,7 @@ func init() {
 			return []runner.Job{
 				{Harness: "c03.types", Mode: "plain", Shards: 16},
 				{Harness: "c03.bytes", Mode: "plain", Shards: 16},
+				{Harness: "c03.utf8", Mode: "plain", Shards: 16},
 			}
 		},
 	})
